@@ -171,3 +171,9 @@ package dagjson
 //@   before Marshal assert[C04] carg2 == cfg && carg0 == n
 //@ func Decode(na, r) (err)
 //@   before Decode assert[C04] carg0.ParseLinks && carg0.ParseBytes
+
+// ---- C06: a successful decode has consumed the block to its end (only white space may follow the value) ----
+//@ func (DecodeOptions).Decode(na, r) (err)
+//@   requires na != nil && r != nil && r.teesink == nil
+//@   ensures[C06] err == nil && !cfg.DontParseBeyondEnd ==> r.pos == io.blen(r.data)
+//@   loop 0 invariant r != nil && r.teesink == nil
